@@ -139,6 +139,16 @@ def correspondence(ctx):
                           dict(kind="monitor", op=tl[k][:400000], spec_verdict=r_, trace=tout[2 * k][:3000], frame_ends=tmeta[k][2]))
         if len(ctx.violations) >= 8:
             break
+    # a stable-input session abandoned after a call whose input was deferred, then a reset and a fresh frame on the same context (sanitizer build)
+    sl = ["sireset %d %d %s" % (m_, f_, frames.hx(datagen.gen(rng, 200000)[1] or b"abc")) for m_ in (0, 1) for f_ in (1, 100, 1000, 60000, 131071)]
+    rc_, so_, se_ = frames.run_lines(frames.harness("san"), sl, timeout=900)
+    ev += len(sl)
+    if rc_ != 0 or len(so_) != len(sl):
+        ctx.violation("sanitizer build aborted after an abandoned stable-input session and a reset: %s :: %s" % (sl[min(len(so_), len(sl) - 1)][:60], (se_ or "")[-500:]),
+                      dict(kind="monitor", op=sl[min(len(so_), len(sl) - 1)][:400000], stderr=(se_ or "")[-3000:]))
+    for ln_, o_ in zip(sl, so_):
+        if o_ != "ok":
+            ctx.violation("after an abandoned stable-input session and a reset, ZSTD_compress2 on the same context: %s" % o_, dict(kind="monitor", op=ln_[:400000], result=o_))
     # deterministic model of ZSTD_decompressStream / ZSTD_decompressContinue (Model/DStream.lean): every call of every history must give the
     # same (consumed, produced, return value - error class or exact input hint) as the real code
     import ent_dstream
